@@ -3,6 +3,10 @@ package main
 import (
 	"encoding/hex"
 	"fmt"
+	"os"
+	"os/exec"
+	"path/filepath"
+	"regexp"
 	"strings"
 	"unicode/utf8"
 
@@ -405,6 +409,120 @@ func runC17(c *runCtx) {
 			}
 		}
 	}
+	cliFixSequence(c, g)
+}
+
+// buildGosqlx builds the CLI from /repo's working tree (shared with C19)
+func buildGosqlx(res *Result) (string, bool) {
+	bin := verifDir + "/.bin/gosqlx"
+	b := exec.Command("go", "build", "-o", bin, "./cmd/gosqlx")
+	b.Dir = repoDir
+	b.Env = append(os.Environ(), "GOFLAGS=-mod=mod", "GOPROXY=off", "GOSUMDB=off", "GOTOOLCHAIN=local")
+	if out, err := b.CombinedOutput(); err != nil {
+		res.corrFail("cli-build-failed", "go build ./cmd/gosqlx failed: "+truncate(string(out), 600), nil, nil)
+		return "", false
+	}
+	return bin, true
+}
+
+var lintRuleID = regexp.MustCompile(`(?m)^\[(L\d+)\]`)
+
+// defect segments for the CLI fix sequence: every ordered pair is laid out one above the other, because the CLI hands
+// every fixer the violations of the text as it was before any fix ran
+var c17Segments = map[string]string{
+	"blank-run":       "\n\n\n\n",
+	"repeated-spaces": "SELECT a,  b   FROM t  WHERE  x = 1\n",
+	"trailing-blanks": "SELECT c FROM u   \n",
+	"lower-keywords":  "select d from v where y = 2\n",
+	"mixed-indent":    " \tSELECT e\n\t FROM w\n",
+	"clean":           "SELECT f FROM z\n",
+	"long-line":       "SELECT aaaaaaaaaaaaaaaaaaaa, bbbbbbbbbbbbbbbbbbbbbbbb, cccccccccccccccccccccc, dddddddddddddddddddddddd, eeeeeeeeeeeeeeeeeeee FROM t\n",
+}
+
+// cliFixSequence: `gosqlx lint --auto-fix` on real files — the fix must converge in one run, leave no violation of a
+// rule that has a fixer, and keep the tokens
+func cliFixSequence(c *runCtx, g *textGen) {
+	res := c.res
+	bin, ok := buildGosqlx(res)
+	if !ok {
+		return
+	}
+	dir := fmt.Sprintf("%s/.work/c17-%d", verifDir, os.Getpid())
+	_ = os.RemoveAll(dir)
+	_ = os.MkdirAll(dir, 0o755)
+	defer os.RemoveAll(dir)
+	fixable := map[string]bool{}
+	for _, fx := range c17Fixers() {
+		fixable[fx.id] = true
+	}
+	type item struct{ text, shape string }
+	var texts []item
+	names := sortedStrings(mapKeys(c17Segments))
+	for _, a := range names {
+		for _, b := range names {
+			texts = append(texts, item{c17Segments[a] + c17Segments[b], a + "-above-" + b})
+		}
+	}
+	for i := 0; i < c.n(40, 1500); i++ {
+		var sb strings.Builder
+		var parts []string
+		for k := 2 + g.r.Intn(4); k > 0; k-- {
+			n := g.r.Pick(names)
+			parts = append(parts, n)
+			sb.WriteString(c17Segments[n])
+		}
+		texts = append(texts, item{sb.String(), "segments"})
+		texts = append(texts, item{g.tame(), "tame"})
+	}
+	file := filepath.Join(dir, "a.sql")
+	for _, it := range texts {
+		if !utf8.ValidString(it.text) {
+			continue
+		}
+		_ = os.WriteFile(file, []byte(it.text), 0o644)
+		r1 := runCLI(bin, dir, "", "lint", "--auto-fix", "a.sql")
+		after1, _ := os.ReadFile(file)
+		r2 := runCLI(bin, dir, "", "lint", "--auto-fix", "a.sql")
+		after2, _ := os.ReadFile(file)
+		recheck := runCLI(bin, dir, "", "lint", "a.sql")
+		res.count("cli-fix|"+it.text, true)
+		if strings.Contains(it.shape, "-above-") {
+			res.stat("cli-fix:ordered-pair")
+		} else {
+			res.stat("cli-fix:" + it.shape)
+		}
+		wit := map[string]any{"command": "gosqlx lint --auto-fix a.sql", "file": it.text, "shape": it.shape}
+		if r1.exit == -9 || r2.exit == -9 {
+			res.fail("cli-autofix-hangs", "lint --auto-fix did not return within 30 s", wit, nil)
+			continue
+		}
+		if string(after2) != string(after1) {
+			res.fail("cli-autofix-not-idempotent", "a second `lint --auto-fix` changes the file the first one left", wit, map[string]any{"once": string(after1), "twice": string(after2)})
+		}
+		left := map[string]bool{}
+		for _, m := range lintRuleID.FindAllStringSubmatch(recheck.stdout, -1) {
+			if fixable[m[1]] {
+				left[m[1]] = true
+			}
+		}
+		for _, id := range sortedStrings(mapKeys(left)) {
+			res.fail("cli-autofix-leaves-violation:"+id, "after `lint --auto-fix` the file still violates a rule whose fix was applied", wit,
+				map[string]any{"file_after": string(after1), "lint_after": truncate(recheck.stdout, 600)})
+		}
+		if orig := lexOf(it.text); orig.ok {
+			if shape := diffShape(orig, lexOf(string(after1))); shape != "" {
+				res.fail("cli-autofix-changes-tokens:"+shape, "`lint --auto-fix` changes the token sequence / comment texts of the file", wit, map[string]any{"file_after": string(after1)})
+			}
+		}
+	}
+}
+
+func mapKeys[V any](m map[string]V) []string {
+	ks := make([]string, 0, len(m))
+	for k := range m {
+		ks = append(ks, k)
+	}
+	return ks
 }
 
 func checkExactness(res *Result, text string) {
